@@ -47,6 +47,12 @@ func shortPkg(path string) string {
 func shortName(full string) string {
 	s := strings.ReplaceAll(full, modPath+"/", "")
 	s = strings.ReplaceAll(s, modPath+".", "")
+	if len(fnCurToOld) > 0 {
+		b := strings.TrimSuffix(s, "$bound")
+		if o, ok := fnCurToOld[b]; ok {
+			return o + s[len(b):]
+		}
+	}
 	return s
 }
 
